@@ -237,6 +237,47 @@ def op_reject(w, ins):
         w.touch()
         ok, v = call(w, g1.api.load, 'clash.p')
         _after(w, ok, v, f'load of a pickle whose levels clash with the receiver {names1}')
+    elif kind == 'copy_missing_var':
+        # copy of a function whose support the target does not declare
+        if a is None or len(w.mgrs) < 2:
+            return 'skip'
+        src, dst = (m, 1 - m)
+        gd = w.mgrs[dst]
+        decd = set(declared(w, dst))
+        cand = [s_ for s_ in w.slots_of(src) if set(w.tt.support(s_.tt)) - decd]
+        if not cand:
+            return 'skip'
+        s_ = cand[ins.get('pos', 0) % len(cand)]
+        t = ins.get('t', 0) % 2
+        if t == 0 or raw:
+            ok, v = call(w, g.api.copy, s_.ref, gd.api)
+        else:
+            ok, v = call(w, D.autoref.copy_bdd, s_.ref, gd.api)
+        _after(w, ok, v, 'copy of a function whose variables the target does not declare')
+    elif kind == 'image_unknown_node':
+        if not raw or a is None or len(dec) < 2:
+            return 'skip'
+        n = max(w.snapshot(m).succ) + 3 + ins.get('pos', 0) % 5
+        order = w.snapshot(m).order
+        fn = D.bdd.preimage if ins.get('t', 0) % 2 else D.bdd.image
+        args = (a.ref, n) if ins.get('n', 0) % 2 else (n, a.ref)
+        ok, v = call(w, fn, args[0], args[1], {order[0]: order[1]}, {order[1]}, g.raw)
+        _after(w, ok, v, 'image/preimage with a node that is not in the manager')
+    elif kind == 'load_bad_pickle':
+        # a pickle whose node table mentions a node it does not contain
+        if a is None:
+            return 'skip'
+        import pickle as _pk
+        order = w.snapshot(m).order
+        if not order:
+            return 'skip'
+        vars_ = {nm: l for l, nm in enumerate(order)}
+        succ = {1: (len(order), None, None), 2: (0, -1, 1), 3: (0, 7 + ins.get('pos', 0) % 3, 2)}
+        if ins.get('t', 0) % 2:
+            succ = {3: (0, 2, 9), 2: (0, -1, 1), 1: (len(order), None, None)}
+        w.put_file('bad.p', _pk.dumps(dict(vars=vars_, succ=succ, roots=[3]), protocol=2))
+        ok, v = call(w, g.api.load, 'bad.p')
+        _after(w, ok, v, 'load of a pickle with an inconsistent node table')
     elif kind == 'extension':
         if a is None:
             return 'skip'
@@ -256,7 +297,7 @@ def op_reject(w, ins):
 
 KINDS = ['var', 'let', 'quant', 'cube', 'formula_name', 'formula_syntax', 'formula_node',
          'foreign', 'unknown_node', 'operator', 'arity', 'level', 'order', 'undeclare', 'extension',
-         'load_clash']
+         'load_clash', 'copy_missing_var', 'image_unknown_node', 'load_bad_pickle']
 
 
 def gen_reject(w, r, cfg):
